@@ -43,4 +43,4 @@ Section Mon.
     forallb (fun i => forallb (fun b => negb (is_block p b) || memn i (descendants p b)) (ancestors p i)) (seq 0 (length p)).
 End Mon.
 
-Definition holds_b (i : input) (o : output) : bool := tree_ok_b (fst i) && forallb (view_ok (fst i)) o.
+Definition holds_b (i : input) (o : output) : bool := tree_ok_b (fst i) && wf_b (fst i) && forallb (view_ok (fst i)) o.
